@@ -47,6 +47,9 @@ SRV_TEXT = {
     "sL": ["[fe80::4]%verylongiface01", "fe80::4%verylongiface01", "dns://[fe80::4%verylongiface01]"],
     "sLe": ["[fe80::5]:54%verylongiface01", "dns://[fe80::5%verylongiface01]:54"],
     "sLd": ["dns://[fe80::6%verylongiface01]:55?tcpport=56"],
+    # extreme ports (MaxPort of ConfigNum.tla): five digits in every port field of the three text forms
+    "s4x": ["10.0.0.4:65535", "[10.0.0.4]:65535", "dns://10.0.0.4:65535", "dns://10.0.0.4:65535?tcpport=65535"],
+    "s6x": ["dns://[2001:db8::4]:1?tcpport=65535", "dns://[2001:db8::4]:00001?tcpport=65535"],
 }
 VALS = {
     1: dict(flags=["EDNS"], timeout=1500, tries=2, ndots=4, servers=["10.9.9.9"], domains=["u.example"], lookups="f",
